@@ -39,6 +39,7 @@ def relayOp (args : List String) : String :=
       pipelining := b "pipelining" true
       offersTls := b "offerstls" false
       eightBit := b "eightbit" true
+      smtputf8 := b "smtputf8" true
       starttls := o "starttls" (.code 220)
       ehlo2 := o "ehlo2" (.code 250)
       auth := o "auth" (.code 235)
@@ -53,7 +54,8 @@ def relayOp (args : List String) : String :=
       tlsRequired := b "tlsrequired" false
       credentials := b "credentials" false
       body8bit := b "body8bit" false
-      hasEncoder := b "encoder" false }
+      hasEncoder := b "encoder" false
+      utf8Addr := b "utf8addr" false }
     showResult (Relay.attempt cfg s)
   | ["pipe", per, outs] =>
     let l := (outs.splitOn ",").filterMap fun x => match x with
